@@ -310,6 +310,18 @@ func guardedBy(f *ssa.Function, mu *ssa.MapUpdate, owner string, freeSearch []st
 	if hit {
 		return true, ""
 	}
+	// path-sensitive form: every feasible path to the insert has branched on the comma-ok of a lookup in this index
+	// (a search loop left through a counter test instead of a found flag, a boolean helper written out, …)
+	if all, _ := flow.EveryPathHas(mu.Block(), func(ft flow.Fact) bool {
+		ex, ok := ft.Cond.(*ssa.Extract)
+		if !ok {
+			return false
+		}
+		lk, ok := ex.Tuple.(*ssa.Lookup)
+		return ok && strings.HasSuffix(indexOwner(lk.X), owner)
+	}); all {
+		return true, ""
+	}
 	return false, "the index " + owner + " is written without first looking the key up in it: a second subscriber presenting the same key silently takes over the entry (and removing either one later breaks the other's reverse lookup)"
 }
 
